@@ -160,6 +160,35 @@ fn output_one(acc: &mut Acc, z: i64, s: u32, f: u32, off: i32) {
     if a != b {
         acc.violation("to_rfc3339", format!("{:?}.to_rfc3339()", dt), format!("{:?}", b), format!("{:?}", a));
     }
+    // sibling routes: the Fixed::RFC3339 item (what `%+` expands to) writes the same text and reads it back; the same
+    // instant as DateTime<Utc> prints what the zero-offset DateTime<FixedOffset> prints
+    const ITEM: [chrono::format::Item<'static>; 1] = [chrono::format::Item::Fixed(chrono::format::Fixed::RFC3339)];
+    acc.transitions += 3;
+    let via = guard(|| dt.format_with_items(ITEM.iter()).to_string());
+    if via != a {
+        acc.violation("Fixed::RFC3339 item:text", format!("{:?}.format_with_items([Fixed::RFC3339])", dt), format!("{:?}", a), format!("{:?}", via));
+    }
+    if let Ok(t) = &a {
+        let back = guard(|| {
+            let mut p = chrono::format::Parsed::new();
+            chrono::format::parse(&mut p, t, ITEM.iter()).and_then(|_| p.to_datetime())
+        });
+        match back {
+            Ok(Ok(p)) if p == dt && p.offset().local_minus_utc() == off && p.naive_utc() == dt.naive_utc() => {}
+            other => acc.violation("Fixed::RFC3339 item:reparse", format!("format::parse(.., {:?}, [Fixed::RFC3339]) then to_datetime()", t), format!("{:?}", dt), format!("{:?}", other)),
+        }
+    }
+    let u = dt.with_timezone(&chrono::Utc);
+    let f0 = u.fixed_offset();
+    for (sf, _) in forms {
+        for use_z in [false, true] {
+            let (x, y) = (guard(|| u.to_rfc3339_opts(sf, use_z)), guard(|| f0.to_rfc3339_opts(sf, use_z)));
+            acc.transitions += 1;
+            if x != y || x.is_err() {
+                acc.violation("DateTime<Utc>::to_rfc3339_opts", format!("{:?}.to_rfc3339_opts({:?}, {}) vs the same instant as DateTime<FixedOffset> at +00:00", u, sf, use_z), format!("{:?}", y), format!("{:?}", x));
+            }
+        }
+    }
 }
 
 fn field_sweeps(acc: &mut Acc) {
